@@ -86,6 +86,13 @@ def run_twin(case, compare_sections=('params', 'rg', 'flags', 'grads'), probe_fo
     steps = 0
     ref_dead = False
     need_forward = False      # C17: observations are promised "after the usual forward pass" only
+    # self-consistency of cost reads: between two read_cost ops separated only by calls that cannot change the
+    # cost (mode switches, train_* group switches, PIT train_* flags, observers, summary reads) the value must
+    # not move - on either replica (an observer that is impure but idempotent is invisible to the twin comparison)
+    COST_PRESERVING = ('set_mode', 'train_nas_only', 'train_net_only', 'train_net_and_nas', 'read_cost',
+                       'read_summary')
+    last_cost = {'S': None, 'R': None}
+    last_cost_idx = [0]
 
     def inject(op, idx, sub):
         nonlocal last_fault, fault_since_state_op
@@ -133,6 +140,7 @@ def run_twin(case, compare_sections=('params', 'rg', 'flags', 'grads'), probe_fo
             last_fault = 'restart'
             fault_since_state_op = True
             need_forward = True
+            last_cost['S'] = last_cost['R'] = None
             if op.get('stale_example'):
                 bump('fault_stale_process_input_example')
             miss, unexp = list(res.missing_keys), list(res.unexpected_keys)
@@ -187,6 +195,24 @@ def run_twin(case, compare_sections=('params', 'rg', 'flags', 'grads'), probe_fo
             bump('fault_abort_forward')
         elif k in ('train_step', 'backward_only', 'forward_only'):
             need_forward = False
+        if k == 'read_cost':
+            for nm_, ob_ in (('R', obs_r), ('S', obs_s)):
+                if ob_ is None:
+                    continue
+                if last_cost[nm_] is not None:
+                    bump('cost_stability_checks')
+                    d_ = W.diff(W.norm(last_cost[nm_]), W.norm(ob_))
+                    if d_:
+                        fail('two cost reads separated only by calls that cannot change the cost return different values',
+                             'cost-not-stable', f'replica {nm_}: {d_[0]}: {d_[1]} then {d_[2]} (ops in between: '
+                             f'{[op_label(o) for o in case["ops"][last_cost_idx[0] + 1:idx]]})', last_fault or 'none')
+                        break
+                last_cost[nm_] = ob_
+            last_cost_idx[0] = idx
+        elif not (k in COST_PRESERVING or (k == 'set_flag' and op['flag'] != 'discrete_cost')):
+            last_cost['S'] = last_cost['R'] = None
+        if failures:
+            break
         if need_forward and k in ('read_cost', 'read_summary'):
             # the restored model has not yet seen a complete forward pass: the statement promises
             # nothing about cost/summary here (SuperNet keeps its sampled coefficients outside the
